@@ -61,7 +61,7 @@ def jobs(tier):
     C = sys.modules["ctparse.ctparse"]
     nw, nts = (2, 1) if tier == "quick" else (3, 2)
     return [Job("C09.EMBED", HA, "ob_embed", timeout=3600, path_timeout=120, env={"VQ_NWORDS": str(nw), "VQ_NTS": str(nts)},
-                bounds="12 expressions x 0..2 inert words before x 0..2 after ({} inert words, inertness decided by the library's own patterns) x {} reference time(s) x latent on/off: same resolution, span = expression span shifted".format(nw, nts),
+                bounds="16 expressions x 0..2 inert words before x 0..2 after ({} inert words, inertness decided by the library's own patterns) x {} reference time(s) x latent on/off: same resolution, span = expression span shifted".format(nw, nts),
                 functions=[fn_id(C.ctparse), fn_id(C._ctparse), fn_id(C._match_regex), fn_id(C._regex_stack)],
                 stubs=["parser runs untraced; pool indices symbolic (solver covers every combination)"], site="ctparse")]
 
